@@ -1,10 +1,17 @@
 #!/bin/sh
-# usage: tools/seed_run.sh <seed dir name> <check id> [tier]   -- applies the seeded patch to /repo, runs the check, undoes it
+# usage: tools/seed_run.sh <seed dir name> <check id> [tier]
+# Applies the seeded patch (patch.rebased.diff if present, else patch.diff) in a SCRATCH WORKTREE of /repo HEAD and runs the check against it
+# (VERIF_REPO), so that /repo itself is never modified while other work is going on.  The evidence file is restored afterwards.
 S=/verif/seeded/$1; C=$2; T=${3:-quick}
-if [ -n "$(git -C /repo status --porcelain --untracked-files=no)" ]; then echo "/repo not clean"; exit 3; fi
-git -C /repo apply $S/patch.diff || exit 3
-cd /verif && ./check $C --tier $T > /tmp/seedrun-$1-$C.log 2>&1; RC=$?
-git -C /repo checkout -- .
-grep -E "^(VIOLATION|KNOWN-FINDING|MACHINERY)" /tmp/seedrun-$1-$C.log | head -8
-tail -1 /tmp/seedrun-$1-$C.log
+P=$S/patch.diff; [ -f $S/patch.rebased.diff ] && P=$S/patch.rebased.diff
+WT=/tmp/seedrun-wt-$1-$$
+git -C /repo worktree add -q --detach $WT HEAD || exit 3
+cp /venv/lib/python3.12/site-packages/spsdk/__version__.py $WT/spsdk/__version__.py 2>/dev/null
+git -C $WT apply $P || { git -C /repo worktree remove --force $WT; echo "SEED $1 patch does not apply"; exit 3; }
+cp /verif/evidence/$C.json /tmp/seedrun-ev-$1-$$.json 2>/dev/null
+cd /verif && VERIF_REPO=$WT ./check $C --tier $T > /tmp/seedrun-$1-$C.log 2>&1; RC=$?
+cp /tmp/seedrun-ev-$1-$$.json /verif/evidence/$C.json 2>/dev/null; rm -f /tmp/seedrun-ev-$1-$$.json
+git -C /repo worktree remove --force $WT
+grep -E "^(VIOLATION|MACHINERY)" /tmp/seedrun-$1-$C.log | head -4
+tail -1 /tmp/seedrun-$1-$C.log | cut -c1-220
 echo "SEED $1 check $C tier $T exit $RC"
